@@ -386,6 +386,40 @@ def check_reads(b, ref, ordered, r):
     return None
 
 
+PYB_PRIMS = ('al', 'sl', 'aq', 'sq', 'ri', 'rv', 'av', 'rs', 'of', 'cv', 'cl')
+
+
+def pyb_text(b):
+    """the dict-of-dicts of the object back-end (`pyBQM._adj`) in dict order, in the text form of the driver's `p` lines;
+    None when a label is outside the protocol alphabet"""
+    data = b.data
+    try:
+        rows = ';'.join(_lab(u) + '>' + '&'.join(f'{_lab(k)}={rat(fr(x))}' for k, x in nu.items()) for u, nu in data._adj.items())
+        return f'{b.vartype.name};{rat(fr(data.offset))};{rows}'
+    except (TypeError, ValueError, OverflowError):
+        return None
+
+
+def readers_text(b):
+    """every reader of the real model, in the text form of the driver's `rd` (array back-ends: index order)"""
+    L = list(b.variables)
+    def opt(f):
+        try:
+            return rat(fr(f()))
+        except (ValueError, KeyError):
+            return '-'
+    ld, (ir, ic, qd), off = b.to_numpy_vectors(variable_order=list(L))
+    parts = [f'{b.shape[0]},{b.shape[1]}', 'T' if b.is_linear() else 'F',
+             ','.join(str(b.degree(v)) for v in L),
+             ','.join(f'{lab(v)}={rat(fr(x))}' for v, x in b.iter_linear()),
+             ','.join(opt(lambda v=v: b.linear[v]) for v in L),
+             ','.join(f'{lab(u)}~{lab(v)}~{rat(fr(x))}' for u, v, x in b.iter_quadratic()),
+             ';'.join('&'.join(f'{lab(u)}={rat(fr(x))}' for u, x in b.adj[v].items()) for v in L),
+             ','.join(opt(lambda a=a, c=c: b.adj[a][c]) if a != c else opt(lambda a=a: b.get_quadratic(a, a)) for a in L for c in L),
+             ','.join(rat(fr(x)) for x in ld) + ';' + ','.join(f'{int(i)}:{int(j)}:{rat(fr(x))}' for i, j, x in zip(ir, ic, qd)) + ';' + rat(fr(off))]
+    return '|'.join(parts)
+
+
 # ---------------------------------------------------------------- operations
 
 class Unhashable(list):
@@ -397,6 +431,71 @@ BAD_LABELS = [None, Unhashable([1])]
 BAD_BIAS = ['x', None]
 
 
+CONTAINERS = ('list', 'set', 'tuple', 'gen', 'iter', 'map', 'frozenset', 'dictkeys')
+
+
+def as_container(kind, items):
+    """the ignored terms as the caller may pass them; `gen` / `iter` / `map` are one-shot iterators"""
+    items = list(items)
+    if kind == 'list': return list(items)
+    if kind == 'set': return set(items)
+    if kind == 'tuple': return tuple(items)
+    if kind == 'frozenset': return frozenset(items)
+    if kind == 'dictkeys': return dict.fromkeys(items).keys()
+    if kind == 'gen': return (x for x in items)
+    if kind == 'iter': return iter(items)
+    if kind == 'map': return map(lambda x: x, items)
+    raise AssertionError(kind)
+
+
+def container_src(kind, items):
+    items = list(items)
+    return {'list': f'{items!r}', 'set': f'set({items!r})', 'tuple': f'tuple({items!r})', 'frozenset': f'frozenset({items!r})',
+            'dictkeys': f'dict.fromkeys({items!r}).keys()', 'gen': f'(x for x in {items!r})', 'iter': f'iter({items!r})',
+            'map': f'map(lambda x: x, {items!r})'}[kind]
+
+
+def gen_ignored_op(r, P, k):
+    """`scale` / `normalize` with ignored variables / interactions / offset.  The ignored terms come in random order, the
+    pairs in random orientation, sometimes with a label / pair the model does not have, in a random kind of container
+    (a one-shot iterator must be materialised by the callee: it is searched once per term)."""
+    L = list(P.labels)
+    iv = r.sample(L, r.randint(0, min(3, len(L)))) if r.random() < .8 else None
+    if iv is not None and r.random() < .2:
+        iv.append(r.choice(LABELS + ['zz']))
+    pairs = [tuple(kk) for kk in P.quad]
+    ii = r.sample(pairs, r.randint(0, min(3, len(pairs)))) if r.random() < .8 else None
+    if ii is not None:
+        ii = [(b, a) if r.random() < .5 else (a, b) for a, b in ii]
+        if r.random() < .2 and len(L) >= 2:
+            ii.append(tuple(r.sample(L, 2)))
+        r.shuffle(ii)
+    if iv is not None:
+        r.shuffle(iv)
+    io = r.random() < .4
+    cv, ci = r.choice(CONTAINERS), r.choice(CONTAINERS)
+    if k == 'sci':
+        return ('sci', r.choice([F(2), F(-2), F(1, 2), F(-1, 4), F(3), F(0)]), iv, ii, io, cv, ci)
+    # normalize: ranges chosen so that the scale factor is a power of two (the extreme non-ignored bias times 2^j)
+    ivs = set(iv or ())
+    iis = {pkey(a, b) for a, b in (ii or ())}
+    ml = max([abs(x) for v, x in P.lin.items() if v not in ivs] or [F(0)])
+    mq = max([abs(x) for kk, x in P.quad.items() if kk not in iis] or [F(0)])
+    def rng(mx, both):
+        base = (mx if mx != 0 else F(1)) * F(2) ** r.randint(-2, 2)
+        if not both or r.random() < .5:
+            return base
+        return (-base * F(2) ** r.randint(0, 2), base * F(2) ** r.randint(0, 2))
+    mode = r.random()
+    if mode < .45:
+        br, qr = rng(max(ml, mq), True), None
+    elif mode < .9:
+        br, qr = rng(ml, True), rng(mq, True)
+    else:
+        br, qr = r.choice([F(1), F(2), F(1, 2), (F(-1), F(2))]), r.choice([None, F(1), F(4)])
+    return ('nz', br, qr, iv, ii, io, cv, ci)
+
+
 def gen_op(r, ref, malformed, obj=False):
     """returns (kind, args) in canonical Python values; biases are Fractions"""
     L = ref.labels
@@ -405,7 +504,9 @@ def gen_op(r, ref, malformed, obj=False):
     def inl():
         return r.choice(L) if L and r.random() < .85 else anyl()
     k = r.choice(['al', 'al', 'sl', 'aq', 'aq', 'aq', 'sq', 'sq', 'ri', 'rv', 'av', 'rs', 'sc', 'of', 'cv', 'fx', 'ct', 'fl',
-                  'rl', 'rl', 'rli', 'cl', 'up', 'alf', 'aqf', 'ala', 'aqd'])
+                  'rl', 'rl', 'rli', 'cl', 'up', 'alf', 'aqf', 'ala', 'aqd', 'sci', 'sci', 'nz', 'nz'])
+    if k in ('sci', 'nz') and not malformed:
+        return gen_ignored_op(r, ref, k)
     if malformed:
         k = r.choice(['al', 'sl', 'aq', 'sq', 'ri', 'rv', 'fx', 'ct', 'fl', 'rs', 'rl', 'alf', 'aqf'])
         bl, bb = r.choice(BAD_LABELS), r.choice(BAD_BIAS)
@@ -534,6 +635,8 @@ def proto_ok(x):
 def line_of(via, op, ref):
     """protocol line for the Lean model; wrong-typed arguments become the `xx` (malformed) op"""
     k = op[0]
+    if k in ('sci', 'nz'):
+        return None          # no model operation: the Lean model is re-loaded from the reference after the call
     def body():
         if k in ('al', 'sl'):
             return f'{k} {olab(op[1])} {rat(op[2])}'
@@ -609,6 +712,14 @@ def src_of(name, op, selfname='b'):
             return f'{name}.update({selfname})'
         o = op[1]
         return f'{name}.update(mk({o.vt!r}, {[(v, float(o.lin[v])) for v in o.labels]!r}, {[(tuple(kk), float(x)) for kk, x in o.quad.items()]!r}, {float(o.off)!r}, b.dtype))'
+    if k in ('sci', 'nz'):
+        iv, ii, io, cv, ci = op[-5:]
+        kw = ((f', ignored_variables={container_src(cv, iv)}' if iv is not None else '') +
+              (f', ignored_interactions={container_src(ci, ii)}' if ii is not None else '') + (', ignore_offset=True' if io else ''))
+        rv = lambda x: repr(tuple(map(float, x))) if isinstance(x, tuple) else repr(float(x))
+        if k == 'sci':
+            return f'{name}.scale({float(op[1])!r}{kw})'
+        return f'{name}.normalize({rv(op[1])}' + (f', {rv(op[2])}' if op[2] is not None else '') + kw + ')'
     if k == 'alf': return f'{name}.add_linear_from({[(v, pyval(x)) for v, x in op[1]]!r})'
     if k == 'aqf': return f'{name}.add_quadratic_from({[(u, v, pyval(x)) for u, v, x in op[1]]!r})'
     if k == 'ala': return f'{name}.add_linear_from_array({[float(x) for x in op[1]]!r})'
@@ -647,6 +758,20 @@ def apply_real(obj, op, base):
     elif k == 'av': obj.add_variable(a[0], a[1])
     elif k == 'rs': obj.resize(a[0])
     elif k == 'sc': obj.scale(a[0])
+    elif k in ('sci', 'nz'):
+        iv, ii, io, cv, ci = op[-5:]
+        kw = dict(ignore_offset=io)
+        if iv is not None:
+            kw['ignored_variables'] = as_container(cv, iv)
+        if ii is not None:
+            kw['ignored_interactions'] = as_container(ci, ii)
+        fv = lambda x: tuple(map(float, x)) if isinstance(x, tuple) else float(x)
+        if k == 'sci':
+            obj.scale(float(op[1]), **kw)
+        elif op[2] is None:
+            obj.normalize(fv(op[1]), **kw)
+        else:
+            obj.normalize(fv(op[1]), fv(op[2]), **kw)
     elif k == 'of': obj.offset = a[0]
     elif k == 'cv': obj.change_vartype(a[0])
     elif k == 'fx': obj.fix_variable(a[0], a[1])
@@ -672,7 +797,7 @@ def apply_real(obj, op, base):
 
 
 BULK = ('alf', 'aqf', 'up', 'ala', 'aqd')
-SITE = {'al': 'add_linear', 'sl': 'set_linear', 'aq': 'add_quadratic', 'sq': 'set_quadratic', 'ri': 'remove_interaction',
+SITE = {'sci': 'scale(ignored)', 'nz': 'normalize', 'al': 'add_linear', 'sl': 'set_linear', 'aq': 'add_quadratic', 'sq': 'set_quadratic', 'ri': 'remove_interaction',
         'rv': 'remove_variable', 'av': 'add_variable', 'rs': 'resize', 'sc': 'scale', 'of': 'offset.setter',
         'cv': 'change_vartype', 'fx': 'fix_variable', 'ct': 'contract_variables', 'fl': 'flip_variable',
         'rl': 'relabel_variables', 'rli': 'relabel_variables_as_integers', 'cl': 'clear', 'up': 'update',
@@ -701,6 +826,29 @@ def apply_ref(P, op, selfref):
     if k == 'av': return P.add_variable(*a)
     if k == 'rs': return P.resize(a[0])
     if k == 'sc': return P.scale(a[0])
+    if k in ('sci', 'nz'):
+        iv, ii, io = op[-5:-2]
+        ivs = set(iv or ())
+        iis = {pkey(x, y) for x, y in (ii or ())}
+        if k == 'sci':
+            sc = op[1]
+        else:
+            par = lambda rr: rr if isinstance(rr, tuple) else (-abs(rr), abs(rr))
+            lr, qr = par(op[1]), par(op[2] if op[2] is not None else op[1])
+            lv = [x for v, x in P.lin.items() if v not in ivs]
+            qv = [x for kk, x in P.quad.items() if kk not in iis]
+            lmin, lmax = (min(lv), max(lv)) if lv else (F(0), F(0))
+            qmin, qmax = (min(qv), max(qv)) if qv else (F(0), F(0))
+            inv = max(lmin / lr[0], lmax / lr[1], qmin / qr[0], qmax / qr[1])
+            if inv == 0:
+                return True
+            sc = 1 / inv
+        P.lin = {v: (x if v in ivs else x * sc) for v, x in P.lin.items()}
+        P.quad = {kk: (x if kk in iis else x * sc) for kk, x in P.quad.items()}
+        if not io:
+            P.off *= sc
+        P.scalar = sc
+        return True
     if k == 'of': return P.set_offset(a[0])
     if k == 'fx': return P.fix_variable(*a)
     if k == 'ct': return P.contract(*a)
@@ -773,6 +921,9 @@ def bqm_history(ctx, r, dt, nops, lines, expect, meta, malformed_rate, script=No
     held = {}            # view objects obtained earlier (may be stale)
     hist = []            # repro source lines
     lines.append(f'new {vt0}'); expect.append(('text', 'ok ' + ref.text())); meta.append((dt, 'new', None))
+    psync = True         # object back-end: the driver's dict model (`PyB`) holds the real `_adj`
+    if dt == 'obj':
+        lines.append(f'pnew {vt0}'); expect.append(('text', f'ok {vt0};0;')); meta.append((dt, 'pnew', None))
     for step in range(nops):
         malformed = r.random() < malformed_rate
         # through which object?
@@ -813,7 +964,7 @@ def bqm_history(ctx, r, dt, nops, lines, expect, meta, malformed_rate, script=No
             new = before.copy()
         partial = (okx is not True) and not new.same(before)
         # precision guard: cut the history before an op whose exact result does not fit the dtype
-        if not all(fits(x, MANT[dt]) for x in new.values() + P.values()):
+        if not all(fits(x, MANT[dt]) for x in new.values() + P.values() + [getattr(P, 'scalar', F(1))]):
             ctx.tick('cut_for_precision')
             break
         # ---- model line(s)
@@ -828,6 +979,7 @@ def bqm_history(ctx, r, dt, nops, lines, expect, meta, malformed_rate, script=No
         src = src_of(name, op)
         hist.append('try:\n    ' + src + '\nexcept Exception as e: print("raised", type(e).__name__, e)')
         exc = None
+        ctx.mark(f'C04 {dt} about to run: {src}  (history: {[h for h in hist[-6:]]})')
         try:
             apply_real(obj, op, b)
         except Exception as e:  # noqa
@@ -914,6 +1066,21 @@ def bqm_history(ctx, r, dt, nops, lines, expect, meta, malformed_rate, script=No
         else:
             lines.append(ln); expect.append(('un' if not ordered else 'text', ('err ' if raised else 'ok ') + got_text))
         meta.append((dt, src, list(hist[-12:])))
+        # (i') the dict back-end against its own model (`DimodModel/PyBqm.lean`), in dict order: the data-level
+        # primitives step the model, everything else (composites of the Python layer, views, relabel) re-loads it
+        if dt == 'obj':
+            pt = pyb_text(b)
+            if pt is None:
+                psync = False
+            elif psync and via == 'd' and k in PYB_PRIMS and ln is not None:
+                lines.append('p ' + ln.split(' ', 1)[1]); expect.append(('text', ('err ' if raised else 'ok ') + pt))
+                meta.append((dt, 'pyBQM ' + src, list(hist[-12:])))
+                ctx.tick('pyb_stepped')
+            else:
+                vtn, offt, rows = pt.split(';', 2)
+                lines.append(f'pload {vtn} {offt} {rows or "-"}'); expect.append(('text', 'ok ' + pt))
+                meta.append((dt, 'pyBQM load after ' + src, list(hist[-12:])))
+                psync = True
         # (iii) read paths, on the model and through its views
         if (script is None and r.random() < .35) or step == nops - 1:
             for T, o2 in ((ref.vt, b), (OTHER[ref.vt], b.spin if ref.vt == 'BINARY' else b.binary)):
@@ -927,6 +1094,13 @@ def bqm_history(ctx, r, dt, nops, lines, expect, meta, malformed_rate, script=No
                              detail=dict(history=hist[-8:], expected=ref.convert(T).text()))
                     return
             ctx.tick('reads_checked')
+            # every reader as the model defines it (`Bqm.getLinear` … `toNumpyVectors`, the subjects of `readers_consistent`)
+            if ordered:
+                try:
+                    rt = readers_text(b)
+                except Exception as e:  # noqa
+                    rt = f'readers raised {type(e).__name__}: {e}'
+                lines.append('rd'); expect.append(('text', 'ok ' + rt)); meta.append((dt, f'readers after {src}', list(hist[-12:])))
             # the views as the model computes them
             for T in ('SPIN', 'BINARY'):
                 o2 = b.spin if T == 'SPIN' else b.binary
